@@ -350,14 +350,16 @@ fn block_scalars(ctx: &mut Ctx, quick: bool, rng: &mut crate::ctx::Rng) {
         strings.push((0..n).map(|_| *rng.pick(&alphabet)).collect());
     }
     for v in &strings {
-        let pos = if quick { rng.below(3) } else { rng.below(3) };
+        let pos = rng.below(4);
         let step = *rng.pick(&[2usize, 2, 2, 4, 3]);
         let mut so = serde_saphyr::SerializerOptions::default();
         so.indent_step = step;
         let (text, prefix_scalars) = match pos {
             0 => (serde_saphyr::to_string_with_options(&BTreeMap::from([("k", LitString(v.clone()))]), so), 1),
             1 => (serde_saphyr::to_string_with_options(&LitString(v.clone()), so), 0),
-            _ => (serde_saphyr::to_string_with_options(&vec![LitString(v.clone())], so), 0),
+            2 => (serde_saphyr::to_string_with_options(&vec![LitString(v.clone())], so), 0),
+            // the value of a key that sits inline after a dash (column 2, whatever the indentation step)
+            _ => (serde_saphyr::to_string_with_options(&vec![BTreeMap::from([("k", LitString(v.clone()))])], so), 1),
         };
         let Ok(text) = text else {
             ctx.count("block:serializer_error");
@@ -369,12 +371,17 @@ fn block_scalars(ctx: &mut Ctx, quick: bool, rng: &mut crate::ctx::Rng) {
         };
         ctx.count(&format!("block:position_{pos}_step_{step}"));
         let replay = json!({"kind": "block", "s": v, "position": pos, "indent_step": step, "text": text});
-        // K1: the writer
-        ctx.case(format!("CLitEmit {} {} {} {chomp} {}", coq::n(step as u128), coq::s(v), coq::b(digit.is_some()), lines_term(&lines)), v.contains('\n') || v.starts_with(' '), replay.clone());
-        // the indicator counts from the parent's indentation (0 in all three positions)
+        // the parent node's indentation: 0, except for the key after a dash (column 2)
+        let parent = if pos == 3 { 2usize } else { 0 };
+        // K1: the writer (body indentation = one step; below a key after a dash the body is laid out from the key)
+        if pos != 3 {
+            ctx.case(format!("CLitEmit {} {} {} {chomp} {}", coq::n(step as u128), coq::s(v), coq::b(digit.is_some()), lines_term(&lines)), v.contains('\n') || v.starts_with(' '), replay.clone());
+        }
+        // the indicator counts from the parent's indentation
+        let digit = digit.map(|d| d + parent as u32);
         if let Some(d) = digit {
             ctx.direct_evaluations += 1;
-            if d as usize != step {
+            if pos != 3 && d as usize != step {
                 ctx.fail("block-indicator-value", format!("LitString({v:?}) at body indentation {step} is written with the indicator {d}: {text:?}"), replay.clone());
             }
         }
@@ -420,6 +427,14 @@ fn block_scalars(ctx: &mut Ctx, quick: bool, rng: &mut crate::ctx::Rng) {
                     lines2.push(" ".repeat(rng.below(step + 2)));
                     chomp2 = *rng.pick(&["Strip", "Clip", "Keep"]);
                 }
+            }
+            // the reader model is given the scalar's own lines: a less indented line that starts with `#` (a comment) or
+            // with a tab ends the scalar in the parser and is no part of it
+            let lead = |l: &String| l.chars().take_while(|c| *c == ' ').count();
+            let n_ind = digit2.map(|d| d as usize).or_else(|| lines2.iter().find(|l| l.chars().any(|c| c != ' ')).map(lead)).unwrap_or(0);
+            if lines2.iter().any(|l| lead(l) < n_ind && matches!(l.chars().nth(lead(l)), Some('#') | Some('\t'))) {
+                ctx.count("block:perturbed_case_outside_reader_model_skipped");
+                continue;
             }
             let hdr = format!("{}{}", digit2.map(|d| d.to_string()).unwrap_or_default(), match chomp2 { "Strip" => "-", "Keep" => "+", _ => "" });
             let mut doc = format!("k: |{hdr}\n");
